@@ -13,7 +13,13 @@ def make_engine(classes, contracts, extra=None):
     from contracts import schema
     eng.disjoint_classes = schema.DISJOINT
     eng.class_aliases = {}
-    eng.module_funcs = {}
+    eng.module_funcs = {
+        'compile_expr_into_callable': 'role:compile_expr_into_callable',
+        'convert_a_field_raw_condition_into_a_boolean_unary_expression': 'role:convert_a_field_raw_condition_into_a_boolean_unary_expression',
+        'normalize_raw_condition_into_a_callable': 'structural_fields:normalize_raw_condition_into_a_callable',
+        'normalize_count_condition_into_a_callable': 'structural_fields:normalize_count_condition_into_a_callable',
+    }
+    eng.module_funcs = {k: v for k, v in eng.module_funcs.items() if v in contracts}
     eng.globals = {}
     eng.callable_classes = set()
     if extra:
@@ -72,7 +78,7 @@ def gen_function(classes, contracts, name, extra=None):
     except Untranslated as e:
         out['error'] = 'UNTRANSLATED: %s' % e
     except Exception as e:
-        out['error'] = 'CRASH: %s\n%s' % (e, traceback.format_exc())
+        out['error'] = 'CRASH: %s\n%s' % (e, ''.join(traceback.format_exc().splitlines(True)[-12:]))
     return out
 
 
